@@ -65,6 +65,8 @@ func main() {
 		os.Exit(runCheck(&o))
 	case "list":
 		os.Exit(runList(&o))
+	case "loops":
+		os.Exit(runLoops(&o))
 	default:
 		fmt.Fprintln(os.Stderr, "unknown command", cmd)
 		os.Exit(2)
@@ -223,4 +225,39 @@ func loadUnprovedCached(verif string) map[string]string {
 		unprovedCache = loadUnproved(verif)
 	}
 	return unprovedCache
+}
+
+// runLoops prints the loop ordinals of the selected functions.
+func runLoops(o *Options) int {
+	p, err := loadAll(o)
+	if err != nil {
+		fmt.Fprintln(os.Stderr, "load:", err)
+		return 2
+	}
+	for _, k := range sortedKeys(p.byName) {
+		if o.funcs == "" || !strings.Contains(k, o.funcs) {
+			continue
+		}
+		fn := p.byName[k]
+		for _, li := range findLoops(fn) {
+			pos := ""
+			for b := range li.body {
+				for _, in := range b.Instrs {
+					if in.Pos().IsValid() {
+						pp := p.fset.Position(in.Pos())
+						if pos == "" || pp.Line < atoiDefault(pos) {
+							pos = fmt.Sprint(pp.Line)
+						}
+					}
+				}
+			}
+			fmt.Printf("%s loop %d (%s) first line %s\n", k, li.ord, li.header.Comment, pos)
+		}
+	}
+	return 0
+}
+
+func atoiDefault(s string) int {
+	n, _ := strconv.Atoi(s)
+	return n
 }
